@@ -17,13 +17,13 @@ import (
 )
 
 type nilEngine struct {
-	w        *World
-	retMemo  map[*ssa.Function]int // 0 unknown, 1 in progress, 2 nonnil, 3 maybe nil
+	w         *World
+	retMemo   map[*ssa.Function]int // 0 unknown, 1 in progress, 2 nonnil, 3 maybe nil
 	fieldMemo map[string]int
 	paramMemo map[*ssa.Parameter]int
-	assume   map[string]bool
-	edge     *[2]*ssa.BasicBlock // when judging a phi operand: the CFG edge it arrives on
-	xtotal   map[*ssa.Function]int
+	assume    map[string]bool
+	edge      *[2]*ssa.BasicBlock // when judging a phi operand: the CFG edge it arrives on
+	xtotal    map[*ssa.Function]int
 	elemVisit map[ssa.Value]bool
 }
 
@@ -807,7 +807,6 @@ func (e *nilEngine) paramNonNil(p *ssa.Parameter, depth int) (bool, string) {
 	return true, "parameter " + p.Name() + " is non-nil at every call site"
 }
 
-
 // nilOnEdge: the current phi edge is the nil outcome of a test of v.
 func (e *nilEngine) nilOnEdge(v ssa.Value) bool {
 	if e.edge == nil {
@@ -864,7 +863,6 @@ func (e *nilEngine) xTotalHolds(f *ssa.Function) bool {
 	}
 	return ok
 }
-
 
 // allStoresNonNil: every literal sets the field non-nil and every later store is non-nil.
 func (e *nilEngine) allStoresNonNil(st *types.Named, fld *types.Var, depth int) bool {
@@ -935,7 +933,6 @@ func (e *nilEngine) initStoresNonNil(fn *ssa.Function, fld *types.Var, depth int
 	})
 	return ok && n > 0, ""
 }
-
 
 // elemsNonNil: every element of the slice/array value v is non-nil.
 func (e *nilEngine) elemsNonNil(v ssa.Value, at ssa.Instruction, depth int) (bool, string) {
@@ -1041,7 +1038,6 @@ func (e *nilEngine) elemsNonNil(v ssa.Value, at ssa.Instruction, depth int) (boo
 	}
 	return false, fmt.Sprintf("elements of %s", v.Name())
 }
-
 
 // cellFlowNonNil: inside closure fn, the captured cell c is non-nil at ld on
 // every path from the closure's entry (after a non-nil store or the non-nil
